@@ -324,6 +324,9 @@ type c15XchgCase struct {
 
 const c15XchgTimeout = 15 * time.Second
 
+// c15History keeps the last few evaluated exchanges (diagnostics in violation messages).
+var c15History []string
+
 func c15XchgCheck(t vh.Fataler, rec *vh.Rec, e *c15Env, c c15XchgCase) {
 	t.Helper()
 	if c.Server < 0 || c.Server >= len(e.servers) {
@@ -404,8 +407,14 @@ wait:
 		classes = append(classes, "callback-error")
 	}
 	nontriv := answered && res.err == nil
-	finish := func(outcome string) { rec.Case(nontriv, vh.Digest(c), c, append(classes, outcome)...) }
-	desc := fmt.Sprintf("base domain %q (%d octets), %d-byte request (reference capacity %d), %d-byte response (reference capacity %d)", s.reqDomain, c15DomainOctets(s.reqDomain), c.ReqLen, reqCap, c.RespLen, respCap)
+	finish := func(outcome string) {
+		rec.Case(nontriv, vh.Digest(c), c, append(classes, outcome)...)
+		c15History = append(c15History, fmt.Sprintf("{srv %d req %d resp %d cberr %v -> %s answered=%v err=%v calls=%d log=%q}", c.Server, c.ReqLen, c.RespLen, c.CbErr, outcome, answered, res.err, len(calls), lines))
+		if len(c15History) > 4 {
+			c15History = c15History[1:]
+		}
+	}
+	desc := fmt.Sprintf("[history: %v] ", c15History) + fmt.Sprintf("base domain %q (%d octets), %d-byte request (reference capacity %d), %d-byte response (reference capacity %d)", s.reqDomain, c15DomainOctets(s.reqDomain), c.ReqLen, reqCap, c.RespLen, respCap)
 
 	// 1. the callback never sees anything but the requester's payload
 	for _, got := range calls {
